@@ -74,6 +74,9 @@ class AffineTransformation(darsia.BaseTransformation):
                 3d, the length is 3.
 
         """
+        # Mark transformation as modified (invalidates cached warps)
+        self.parameter_version = getattr(self, "parameter_version", 0) + 1
+
         if translation is not None:
             self.translation = translation
 
